@@ -220,6 +220,7 @@ func loadWorld(o LoadOpts) (*World, error) {
 			}
 		}
 	}
+	w.refineParamCalls()
 	for _, cs := range w.Callees {
 		sort.Slice(cs, func(i, j int) bool { return cs[i].String() < cs[j].String() })
 	}
@@ -460,4 +461,111 @@ func (w *World) inTestFile(fn *ssa.Function) bool {
 		}
 	}
 	return false
+}
+
+// refineParamCalls replaces, for a call through a function-typed parameter (`reduce()` in
+// `func (s *Solver) reduceIfNeeded(reduce func())`), the class-hierarchy answer (every function of that signature)
+// by the functions actually handed in, when the enclosing function is unexported, every call of it is a static call
+// seen in the module, and each of them passes a function value (a function, a method value, a literal) or forwards
+// its own parameter of the same kind. Sound for that case: an unexported function has no other callers.
+func (w *World) refineParamCalls() {
+	var resolve func(fn *ssa.Function, pi int, depth int) ([]*ssa.Function, bool)
+	resolve = func(fn *ssa.Function, pi int, depth int) ([]*ssa.Function, bool) {
+		if depth > 3 || fn.Object() == nil || fn.Object().Exported() || fn.Parent() != nil {
+			return nil, false
+		}
+		// used as a value anywhere? then callers are unknown
+		for _, g := range w.Fns {
+			escaped := false
+			allInstrs(g, func(ins ssa.Instruction) {
+				for _, op := range ins.Operands(nil) {
+					if op == nil || *op == nil {
+						continue
+					}
+					if f, ok := (*op).(*ssa.Function); ok && f == fn {
+						if ci, isCall := ins.(ssa.CallInstruction); !isCall || ci.Common().Value != *op {
+							escaped = true
+						}
+					}
+					if mc, ok := (*op).(*ssa.MakeClosure); ok {
+						if bf, ok := mc.Fn.(*ssa.Function); ok && w.unwrap(bf) == fn && bf != fn {
+							escaped = true
+						}
+					}
+				}
+			})
+			if escaped {
+				return nil, false
+			}
+		}
+		var out []*ssa.Function
+		sites := 0
+		for _, g := range w.Fns {
+			for _, ci := range callsIn(g) {
+				if ci.Common().StaticCallee() != fn {
+					continue
+				}
+				sites++
+				args := ci.Common().Args
+				if pi >= len(args) {
+					return nil, false
+				}
+				switch a := args[pi].(type) {
+				case *ssa.Function:
+					out = append(out, w.unwrap(a))
+				case *ssa.MakeClosure:
+					f, _ := a.Fn.(*ssa.Function)
+					if f == nil {
+						return nil, false
+					}
+					out = append(out, w.unwrap(f))
+				case *ssa.Parameter:
+					pj := paramIndex(g, a)
+					sub, ok := resolve(g, pj, depth+1)
+					if pj < 0 || !ok {
+						return nil, false
+					}
+					out = append(out, sub...)
+				default:
+					return nil, false
+				}
+			}
+		}
+		return out, sites > 0
+	}
+	for _, fn := range w.Fns {
+		for _, ci := range callsIn(fn) {
+			p, ok := ci.Common().Value.(*ssa.Parameter)
+			if !ok || ci.Common().IsInvoke() {
+				continue
+			}
+			if _, isSig := p.Type().Underlying().(*types.Signature); !isSig {
+				continue
+			}
+			fs, ok := resolve(fn, paramIndex(fn, p), 0)
+			if !ok {
+				continue
+			}
+			// drop the old edges of this site
+			for _, old := range w.Callees[ci] {
+				var keep []ssa.CallInstruction
+				for _, s := range w.Callers[old] {
+					if s != ci {
+						keep = append(keep, s)
+					}
+				}
+				w.Callers[old] = keep
+			}
+			w.Callees[ci] = nil
+			seen := map[*ssa.Function]bool{}
+			for _, f := range fs {
+				if seen[f] || (!w.fnSet[f] && !w.isInit(f)) {
+					continue
+				}
+				seen[f] = true
+				w.Callees[ci] = append(w.Callees[ci], f)
+				w.Callers[f] = append(w.Callers[f], ci)
+			}
+		}
+	}
 }
